@@ -7,7 +7,7 @@ import mpmath as mp
 from common import *
 
 mp.mp.dps = 50
-CERT_PROCS = int(os.environ.get("VERIF_CERT_PROCS", "12"))
+CERT_PROCS = int(os.environ.get("VERIF_CERT_PROCS", "8"))      # coqc processes for the certificate shards (raise to 16 on an idle 16-core machine)
 
 # ----------------------------------------------------------------------------- branch cuts / singular points
 # Predicates on exact coordinates (x, y) (Fractions or floats that are exact dyadics).
@@ -34,6 +34,11 @@ CUTS = {
     "asech": lambda x, y: y == 0 and (x <= 0 or x >= 1), "acsch": _imag_le1, "acoth": _real_le1,
     "pow": _neg_real, "powf": _neg_real, "log": _neg_real,
 }
+
+# the axis that carries the cuts of each function ('' = no cut)
+CUT_AXIS = {n: "" for n in CUTS}
+for _n in "arg sqrt ln asin acos asec acsc acosh atanh asech acoth pow powf log".split(): CUT_AXIS[_n] = "real"
+for _n in "atan acot asinh acsch".split(): CUT_AXIS[_n] = "imag"
 
 def on_cut(name, z):
     return CUTS[name](z[0], z[1])
@@ -83,6 +88,8 @@ RECIPROCALS = [("sec", "cos"), ("csc", "sin"), ("cot", "tan"), ("sech", "cosh"),
 # ----------------------------------------------------------------------------- the structured point set (dyadic)
 D10 = F(1, 1024)
 D9 = F(1, 512)
+CUT_SCALES = (10, 20, 30)      # distance 2^-k from the axis carrying a cut
+BP_SCALES = (10, 20)           # distance 2^-k from the branch points +-1, +-i
 
 def structured_points():
     """[(category, x, y)] with exact dyadic coordinates, 1e-3 <= |z| <= 10."""
@@ -97,11 +104,20 @@ def structured_points():
     for r in (F(1, 512), F(1, 4), F(3, 4), F(5, 4), F(3), F(19, 2)):
         pts += [("axis+x", r, F(0)), ("axis-x", -r, F(0)), ("axis+y", F(0), r), ("axis-y", F(0), -r)]
     dirs = [(1, 0), (-1, 0), (0, 1), (0, -1), (1, 1), (1, -1), (-1, 1), (-1, -1)]
-    for nm, (bx, by), d in (("bp0", (0, 0), D9), ("bp+1", (1, 0), D10), ("bp-1", (-1, 0), D10), ("bp+i", (0, 1), D10), ("bp-i", (0, -1), D10)):
-        for (dx, dy) in dirs:
-            pts.append((nm, F(bx) + dx * d, F(by) + dy * d))
-    for t in (F(-6), F(-3, 2), F(-1, 2), F(1, 2), F(3, 2), F(6)):
-        pts += [("cut-real-above", t, D10), ("cut-real-below", t, -D10), ("cut-imag-right", D10, t), ("cut-imag-left", -D10, t)]
+    for (dx, dy) in dirs:
+        pts.append(("bp0", dx * D9, dy * D9))                       # |z| >= 1e-3: one scale only next to 0
+    for k in BP_SCALES:                                             # next to +-1, +-i at several scales
+        d = F(1, 2 ** k)
+        for nm, (bx, by) in (("bp+1", (1, 0)), ("bp-1", (-1, 0)), ("bp+i", (0, 1)), ("bp-i", (0, -1))):
+            for (dx, dy) in dirs:
+                pts.append(("%s@%d" % (nm, k), F(bx) + dx * d, F(by) + dy * d))
+    # both sides of the real and of the imaginary axis (every cut lies on one of them), at several distances:
+    # "both sides of each branch cut" includes points arbitrarily close to it
+    for k in CUT_SCALES:
+        d = F(1, 2 ** k)
+        for t in (F(-6), F(-3, 2), F(-1, 2), F(1, 2), F(3, 2), F(6)):
+            pts += [("cut-real-above@%d" % k, t, d), ("cut-real-below@%d" % k, t, -d),
+                    ("cut-imag-right@%d" % k, d, t), ("cut-imag-left@%d" % k, -d, t)]
     return pts
 
 def fl(x):
